@@ -28,7 +28,9 @@
     `append(b, s...)`, `len`, `s[i]` are defined there; a lossy integer conversion wraps (`Go.wrap`); a slice of structs is
     an owned Lean list; `utf8.DecodeRune` and the encoding behind `string(rune)` are ASSUMED to be Model/Utf8.lean's
     transcription of unicode/utf8 (the only import of this file; C09 proves the decoder inverse to the encoder on every
-    scalar value); `bytes.HasPrefix` is "begins with"; `fmt.Sprintf` is the concatenation of the pieces the translator
+    scalar value); `bytes.HasPrefix` is "begins with"; `bytes.Replace(s, old, new, -1)` /
+    `bytes.ReplaceAll` is ASSUMED to be its documented meaning (`Go.bytesReplaceAll`: every non-overlapping occurrence from
+    the left, result in a fresh array); `fmt.Sprintf` is the concatenation of the pieces the translator
     parses the constant format into (%s, %d); the regexp engine and `strconv.UnquoteChar` are NOT given a meaning: they
     are fields of the world `Ext` that the translated functions take as a parameter.
   Core Lean only.
@@ -291,6 +293,42 @@ def Go.wrap (bits : Nat) (signed : Bool) (v : Int) : Int :=
 
 /-- `bytes.HasPrefix(a, b)`: a begins with b -/
 def Go.hasPrefix (a b : Sl) : M Bool := fun st => .ok ((view st b).isPrefixOf (view st a)) st
+
+/-- does `old` occur in the bytes (`bytes.Count(s, old) ≠ 0`; the empty `old` occurs everywhere) -/
+def occursIn (old : List Int) : List Int → Bool
+  | [] => old.isPrefixOf []
+  | b :: r => old.isPrefixOf (b :: r) || occursIn old r
+
+/-- the bytes `bytes.Replace(s, old, new, -1)` / `bytes.ReplaceAll(s, old, new)` returns, for a NON-EMPTY `old`: the
+    occurrences of `old` are found from left to right without overlap (the search resumes behind an occurrence) and each
+    is replaced by `new`.  `skip` counts the bytes of the occurrence being skipped (0 at the call). -/
+def replaceAll (old new : List Int) : Nat → List Int → List Int
+  | _, [] => []
+  | skip + 1, _ :: r => replaceAll old new skip r
+  | 0, b :: r =>
+    if old.isPrefixOf (b :: r) then new ++ replaceAll old new (old.length - 1) r else b :: replaceAll old new 0 r
+
+/-- … and for the EMPTY `old` (documented: "it matches at the beginning of the slice and after each UTF-8 sequence"):
+    `new`, then every UTF-8 sequence followed by `new`; the widths are Model/Utf8.lean's `decodeRune`.  `rem` counts the
+    bytes of the current sequence still to be copied (0 at a sequence's first byte and at the call, which the caller
+    precedes by the first `new`).  No function translated so far reaches this case. -/
+def insertAfterRunes (new : List Int) : Nat → List Int → List Int
+  | _, [] => []
+  | rem, b :: r =>
+    let n := if rem = 0 then (Utf8.decodeRune ((b :: r).map Int.toNat)).2 else rem
+    if n ≤ 1 then b :: (new ++ insertAfterRunes new 0 r) else b :: insertAfterRunes new (n - 1) r
+
+/-- `bytes.Replace(s, old, new, -1)` and `bytes.ReplaceAll(s, old, new)` (the translator accepts `Replace` only with the
+    constant -1 as its last argument; any other count is outside the subset).  As in the standard library: when `old` does
+    not occur the result is `append([]byte(nil), s...)` (a copy; nil for an empty `s`), otherwise a fresh array of exactly
+    the result's length.  The result never shares an array with an argument. -/
+def Go.bytesReplaceAll (s old new : Sl) : M Sl := fun st =>
+  let o := view st old
+  let src := view st s
+  if occursIn o src then
+    let out := if o = [] then view st new ++ insertAfterRunes (view st new) 0 src else replaceAll o (view st new) 0 src
+    .ok { arr := st.arrays.length, off := 0, len := out.length, cap := out.length } { st with arrays := st.arrays ++ [out] }
+  else Go.appendList Go.nilSl src st
 
 /-- `utf8.DecodeRune(p)`: (rune, width) — ASSUMED to be Model/Utf8.lean's transcription of unicode/utf8.DecodeRune
     (empty: (RuneError, 0); invalid or short: (RuneError, 1)) on the bytes the slice shows -/
